@@ -28,10 +28,15 @@ func Parse(expression string) (Node, error) {
 	return p.parse()
 }
 
+// maxNesting limits how deeply expressions may be nested, so that parsing
+// cannot exhaust the goroutine stack.
+const maxNesting = 10000
+
 type parser struct {
-	lex  lexer.Lexer
-	curr lexer.Token
-	next lexer.Token
+	lex   lexer.Lexer
+	curr  lexer.Token
+	next  lexer.Token
+	depth int
 }
 
 func (p *parser) advance() error {
@@ -48,12 +53,19 @@ func (p *parser) advance2() error {
 }
 
 func (p *parser) expression(prec int) (Node, error) {
+	p.depth++
+	if p.depth > maxNesting {
+		return nil, errNestingTooDeep
+	}
+
 	node, err := p.primaryExpression()
 	if err != nil {
 		return nil, err
 	}
 
-	return p.infix(node, prec)
+	node, err = p.infix(node, prec)
+	p.depth--
+	return node, err
 }
 
 func (p *parser) infix(node Node, prec int) (Node, error) {
